@@ -184,6 +184,10 @@ const (
 type Options struct {
 	Letters     []Letter
 	NoFwdRefs   bool
+	// LateVRF: the second network instance is created only AFTER the Init history was applied (to the default instance)
+	// and the contents were read once - whatever the RIB memoises about its set of network instances by then must not
+	// hide the later one (no-hook and HookAfterNIs configurations).
+	LateVRF bool
 	// NoCheckFn builds the RIB with rib.DisableRIBCheckFn(): no resolvability / referrer checks at all, every valid
 	// operation is installed at once. Only the fold oracle (C01) applies.
 	NoCheckFn bool
@@ -252,16 +256,26 @@ func New(o *Options) func() mc.Instance {
 			must(err)
 			in.r = srv.VerifRIB()
 		case HookAfterNIs:
-			must(in.r.AddNetworkInstance(V))
+			if !o.LateVRF {
+				must(in.r.AddNetworkInstance(V))
+			}
 			in.attachHook()
 		case HookBeforeNIs:
 			in.attachHook()
 			must(in.r.AddNetworkInstance(V))
 		default:
-			must(in.r.AddNetworkInstance(V))
+			if !o.LateVRF {
+				must(in.r.AddNetworkInstance(V))
+			}
 		}
 		for _, l := range o.Init {
 			in.apply(l, false)
+		}
+		if o.LateVRF && (o.Hook == NoHook || o.Hook == HookAfterNIs) {
+			if _, err := in.r.RIBContents(); err != nil {
+				panic(err)
+			}
+			must(in.r.AddNetworkInstance(V))
 		}
 		return in
 	}
